@@ -2,8 +2,9 @@
    Model: Model/C11Validator.v (token printing, validator_parser.rs scanners, schema_builder.rs).
    Spec:  Spec/C11Spec.v (expected constraints, chain reader, JS string reading, oracle, domain, classes).
    Only statements, [exact], examples and [Print Assumptions] live here. *)
-From Coq Require Import String Ascii List Arith Bool.
-Require Import TT.Model.Str TT.Model.C11Validator TT.Spec.C11Spec TT.Proofs.C11Proofs TT.Proofs.C11Scan TT.Proofs.C11Loop TT.Proofs.C11Esc.
+From Coq Require Import String Ascii List Arith Bool ZArith.
+Require Import TT.Model.Str TT.Model.C11Validator TT.Spec.C11Spec TT.Proofs.C11Proofs TT.Proofs.C11Scan TT.Proofs.C11Loop TT.Proofs.C11Esc TT.Proofs.C11Arr TT.Proofs.C11Full.
+Require TT.Proofs.C11Dec.
 Import ListNotations.
 
 (* The full statement (NOT asserted here): for every f64 printing function, every in-domain field whose literal
@@ -53,21 +54,37 @@ Theorem C11_exact_render_arrays_partial : forall v k, va_ok v = true ->
   read_chain (build_schema (opts k (TsArr (TsArr (TsOpt (TsPrim (L "number")))))) (Some v)) =
     Some (arr_of (Sch (L "z.array") [Sch (L "z.coerce.number") [] [MOptional]] []) ms).
 Proof. exact render_exact_arrays. Qed.
+(* ... and for EVERY element type the reader understands (readable: string / number / boolean / void primitives, Option,
+   Vec, custom types whose name is made of identifier characters - i.e. everything but the z.unknown comment form):
+   the chain of a Vec field reads back as z.array(<schema_of element>) with exactly the length methods and the Option
+   wrappers (induction over read_schema with symbolic fuel, Proofs/C11Arr.v) ... *)
+Theorem C11_exact_render_arrays : forall inner v k, readable inner = true -> va_ok v = true ->
+  read_chain (build_schema (opts k (TsArr inner)) (Some v)) =
+  Some (arr_of (schema_of inner) (length_meths v ++ repeat MOptional k)).
+Proof. exact render_exact_arrays_all. Qed.
+(* ... and the element schema carries no constraint, whatever the element type *)
+Theorem C11_array_element_no_constraint : forall t, no_cons_schema (schema_of t) = true.
+Proof. exact schema_of_no_cons. Qed.
 
 (* scanning half on the sub-domain of CANONICAL single validators: one #[validate(length(..))] or
    #[validate(range(..))] whose arguments are any subset of min, max, message in ANY of the six orders (o); bounds are any
-   number texts (digits . e E + -), the message literal is "body" with a body of arbitrary bytes (multi-byte
-   included) free of double quote, backslash, closing parenthesis and the seven keywords.
+   number texts (digits . e E + -), the message literal is "body" where body is ANY source text (multi-byte and
+   escapes included) on which the closing-quote scan ends at the literal's own quote (closes: every double quote
+   escaped, not ending inside an escape), free of closing parenthesis and the seven keywords (okm = body_ok).
    On the printed token string the scanners return exactly the declared components: no panic, bounds = the
-   numeric parse applied to the declared literal text, message = the declared body, email = url = false,
+   numeric parse applied to the declared literal text, message = unescape body (the five replace calls; equal to
+   the literal's value on the sub-language of C11_unescape_exact_partial, see C11_loop_escaped_messages; equal to
+   body itself on the plain bodies of the earlier rounds, C11_plain_bodies_instance), email = url = false,
    the other constraint absent. dispf (f64 parse + Display) is arbitrary. *)
 Theorem C11_exact_scan_partial : forall dispf r o omin omax omsg, okn omin -> okn omax -> okm omsg ->
   parse_validator_attributes dispf [AValidate [canon_item r (canon_args o omin omax omsg)]] =
   Ok (Some (let c := {| c_min := onum (if r then dispf else parse_u64) omin;
-                        c_max := onum (if r then dispf else parse_u64) omax; c_msg := omsg |} in
+                        c_max := onum (if r then dispf else parse_u64) omax; c_msg := option_map unescape omsg |} in
             {| v_length := if r then None else Some c; v_range := if r then Some c else None;
                v_email := false; v_url := false |})).
 Proof. exact scan_exact_canon. Qed.
+Theorem C11_plain_bodies_instance : forall b, plain_body b = true -> body_ok b = true /\ unescape b = b.
+Proof. exact plain_body_ok. Qed.
 
 (* both halves composed on that sub-domain, for String / numeric / Vec<String> fields under k Options:
    the emitted chain reads back as exactly min / max (printed bound of the declared literal) with the declared message *)
@@ -87,16 +104,62 @@ Theorem C11_exact_canon_partial : forall dispf k o omin omax omsg, okn omin -> o
                                   (cstr_meths (canon_cstr dispf false omin omax omsg) ++ repeat MOptional k))).
 Proof. exact exact_canon. Qed.
 
+(* THE FULL STATEMENT on the canonical sub-domain (field_chain does not panic and the ORACLE accepts the chain - the
+   conclusion of C11_exact_full_statement, not only a read-back of the parsed attributes): one length validator with
+   u64 bounds (any u64 literal, leading zeros included; C11_u64_bound_exact supplies printed text = declared
+   decimal), arguments in any of the six orders, message any admissible body on which unescape gives the value the
+   specification assigns to the literal (msg_agrees: true on the escape sub-language by C11_loop_escaped_messages
+   and on plain bodies), on String and Vec<String> fields under k Options; for every dispf *)
+Theorem C11_full_canon_length_partial : forall dispf k o omin omax omsg, oku64 omin -> oku64 omax -> okm omsg -> msg_agrees omsg ->
+  (exists v chain, field_chain dispf (canon_field (opt_ty k TyString) false o omin omax omsg) = Ok (v, chain) /\
+                   c11_field_ok (canon_field (opt_ty k TyString) false o omin omax omsg) chain = true) /\
+  (exists v chain, field_chain dispf (canon_field (opt_ty k (TyVec TyString)) false o omin omax omsg) = Ok (v, chain) /\
+                   c11_field_ok (canon_field (opt_ty k (TyVec TyString)) false o omin omax omsg) chain = true).
+Proof. exact full_canon_length. Qed.
+(* ... and on Vec<T> for EVERY readable element type T (C11_exact_render_arrays supplies the read-back) *)
+Theorem C11_full_canon_length_vec_partial : forall dispf k o omin omax omsg ti, readable (tstruct_of ti) = true ->
+  oku64 omin -> oku64 omax -> okm omsg -> msg_agrees omsg ->
+  exists v chain, field_chain dispf (canon_field (opt_ty k (TyVec ti)) false o omin omax omsg) = Ok (v, chain) /\
+                  c11_field_ok (canon_field (opt_ty k (TyVec ti)) false o omin omax omsg) chain = true.
+Proof. exact full_canon_length_vec. Qed.
+(* ... and one range validator on a numeric field, for every f64 printing function dispf that is exact on the declared
+   bounds (okb dispf: the literal is a number text, dispf prints a number text denoting the declared decimal - the
+   complement of class C11-9 together with the domain condition) *)
+Theorem C11_full_canon_range_partial : forall dispf k o omin omax omsg, okb dispf omin -> okb dispf omax -> okm omsg -> msg_agrees omsg ->
+  exists v chain, field_chain dispf (canon_field (opt_ty k TyNum) true o omin omax omsg) = Ok (v, chain) /\
+                  c11_field_ok (canon_field (opt_ty k TyNum) true o omin omax omsg) chain = true.
+Proof. exact full_canon_range. Qed.
+
 (* several validators per attribute and several attributes per field: for ANY list of attributes, in any
-   order, each being  #[validate(flags.., length|range(args in any order), flags..)]  (flags = email / url, any
-   number, before and after),  #[validate(flags..)] / #[validate()],  #[validate]  or a non-validate attribute:
+   order, each being  #[validate(sides.., length|range(args in any order), sides..)]  (sides = any number, before
+   and after, of email / url flags AND other validators: custom(function = ..), must_match(other = ..), required,
+   nested, any name with or without key = literal arguments),  #[validate(sides..)] / #[validate()],  #[validate]
+   or a non-validate attribute. Side condition on another validator (side_ok / inert): its printed text contains
+   none of email, url, length, range - nothing else; messages as in C11_exact_scan_partial (escapes allowed).
    parse_validator_attributes does not panic and returns the left fold of the per-attribute effects
    (lr_effect: the declared length/range replaces the slot of its kind, the other slot and the flags are kept;
-   flags_effect: flags are or-ed in) - Some iff a validate attribute is present *)
+   flags_effect: flags are or-ed in; the other validators contribute nothing) - Some iff a validate attribute is present *)
 Theorem C11_loop_exact_partial : forall dispf ss, Forall sattr_ok ss ->
   parse_validator_attributes dispf (map attr_of ss) =
   Ok (if existsb is_val ss then Some (fold_left (effect dispf) ss va_init) else None).
 Proof. exact loop_exact. Qed.
+(* the side condition is exact: if the token string of an attribute contains one of the four keywords - for instance
+   inside one of its items (second theorem) - the step is NOT inert: the flag is set / the slot is occupied *)
+Theorem C11_other_validators_condition_exact : forall dispf v T v', va_step dispf v T = Ok v' ->
+  (contains "email" T = true -> v_email v' = true) /\ (contains "url" T = true -> v_url v' = true) /\
+  (contains "length" T = true -> v_length v' <> None) /\ (contains "range" T = true -> v_range v' <> None).
+Proof. exact keyword_not_inert. Qed.
+Theorem C11_keyword_in_item : forall fl s (kw : string), In s fl -> contains kw (stext s) = true ->
+  contains kw (items_tokens (map sitem fl)) = true.
+Proof. exact keyword_in_item. Qed.
+(* the escape sub-language inside the loop theorem: a literal of the sub-language (lit_ok) whose source text has no
+   closing parenthesis and none of the seven keywords is an admissible message (okm) of C11_exact_scan_partial /
+   C11_exact_canon_partial / C11_loop_exact_partial, the message these theorems return for it is the literal's value,
+   and that is the value the specification side (rust_body_value, used by lits_consistent) gives the declared literal *)
+Theorem C11_loop_escaped_messages : forall l, lit_ok l = true -> lacks ")" (text l) = true ->
+  forallb (fun kw => negb (contains kw (text l))) kws = true ->
+  okm (Some (text l)) /\ option_map unescape (Some (text l)) = Some (value l) /\ lit_value (text l) = value l.
+Proof. exact atoms_in_loop. Qed.
 
 (* later attributes only add (the loop of parse_validator_attributes; seeds C11-1 / C11-4 break exactly this):
    attributes that declare no length leave the length parsed so far untouched, same for range, and
@@ -122,6 +185,18 @@ Theorem C11_message_escapes_partial : forall T P l R,
   fs (L "message") T = Some (P, L " = " ++ dq :: text l ++ dq :: R) ->
   lit_ok l = true -> parse_message T = Ok (Some (value l)).
 Proof. exact parse_message_atoms. Qed.
+
+(* u64 bounds: the text printed for a declared length bound (parse::<u64> then Display) denotes exactly the declared
+   decimal - the oracle compares dec_of_text of the printed text with dec_of_num of the declaration *)
+Theorem C11_u64_bound_exact : forall lit, u64_lit (Num false lit) = true ->
+  exists t, parse_u64 lit = Some t /\ t = show_N (n_of_digits lit) /\ dec_of_text t = dec_of_text lit /\
+            dec_of_text lit = dec_of_num (Num false lit) /\ dec_of_text lit <> None.
+Proof. exact C11Dec.u64_bound_exact. Qed.
+(* ... and Display of a u64 reads back as that number: dec_of_text (show_N n) has value n *)
+Theorem C11_show_N_value : forall n x, dec_of_text (show_N n) = Some x -> C11Dec.dec_val_N x = Some n.
+Proof. exact C11Dec.show_N_value. Qed.
+Theorem C11_show_N_reads : forall n, dec_of_text (show_N n) = Some (canon false (show_N n) 0%Z).
+Proof. exact C11Dec.show_N_roundtrip. Qed.
 
 (* the run-time oracle decides exactly this proposition (C11_holds: reads as a schema of the right base, nothing
    nested carries a constraint, own methods = expected constraints kind by kind with equal exact decimals and
@@ -217,12 +292,40 @@ Proof. repeat split; vm_compute; reflexivity. Qed.
 
 (* the shape of the seeded regressions: #[validate(length(min = 6, max = 254))] then #[validate(email)] *)
 Example C11_ex_loop :
-  let ss := [SLr [] false 0 (Some (L "6")) (Some (L "254")) None []; SOther; SFlags [FE]; SPath] in
+  let ss := [SLr [] false 0 (Some (L "6")) (Some (L "254")) None []; SOther; SFlags [SdF FE]; SPath] in
   Forall sattr_ok ss /\
   parse_validator_attributes dispf_small (map attr_of ss) =
     Ok (Some {| v_length := Some {| c_min := Some (L "6"); c_max := Some (L "254"); c_msg := None |};
                 v_range := None; v_email := true; v_url := false |}).
 Proof. split; [repeat constructor; vm_compute; reflexivity|vm_compute; reflexivity]. Qed.
+
+(* other validators beside length, and a message with escapes, in the loop theorem *)
+Definition ex_lit : list atom := [Plain "a"; Esc dq; Plain "b"; Esc dq; Plain " "; Esc bs; Plain " "; Esc "n"; Esc "t"; Esc sq; Esc bs; Esc "n"].
+Example C11_ex_loop_sides :
+  let ss := [SLr [SdO (L "custom") (Some [(L "function", L """check_name""")]); SdF FU] false 4 (Some (L "1")) None (Some (text ex_lit))
+                 [SdO (L "required") None; SdO (L "must_match") (Some [(L "other", L """pw2""")])]; SFlags [SdO (L "nested") None]] in
+  Forall sattr_ok ss /\
+  lit_ok ex_lit = true /\ lacks ")" (text ex_lit) = true /\ forallb (fun kw => negb (contains kw (text ex_lit))) kws = true /\
+  parse_validator_attributes dispf_small (map attr_of ss) =
+    Ok (Some {| v_length := Some {| c_min := Some (L "1"); c_max := None; c_msg := Some (value ex_lit) |};
+                v_range := None; v_email := false; v_url := true |}) /\
+  side_ok (SdO (L "custom") (Some [(L "function", L """is_email_like""")])) = false.
+Proof. split; [repeat constructor; vm_compute; reflexivity|repeat split; vm_compute; reflexivity]. Qed.
+Example C11_ex_arrays_all :
+  let inner := TsOpt (TsArr (TsOpt (TsCustom (L "Item")))) in
+  readable inner = true /\ va_ok ex_va = true /\
+  build_schema (opts 1 (TsArr inner)) (Some ex_va) =
+    L "z.array(z.array(ItemSchema.optional()).optional()).min(1, { message: ""say \""hi\"" \\ (x)"" }).max(50, { message: ""say \""hi\"" \\ (x)"" }).optional()".
+Proof. repeat split; vm_compute; reflexivity. Qed.
+Example C11_ex_u64_bound : u64_lit (Num false (L "00120")) = true /\ parse_u64 (L "00120") = Some (L "120") /\
+  dec_of_text (L "120") = dec_of_text (L "00120") /\ u64_lit (Num false (L "18446744073709551615")) = true.
+Proof. repeat split; vm_compute; reflexivity. Qed.
+
+Example C11_ex_full_canon_premises :
+  oku64 (Some (L "007")) /\ oku64 None /\ okm (Some (text ex_lit)) /\ msg_agrees (Some (text ex_lit)) /\
+  okb dispf_small (Some (L "0")) /\ okb dispf_small (Some (L "100")) /\
+  readable (tstruct_of (TyOpt (TyVec (TyCustom (L "Item"))))) = true.
+Proof. repeat split; try (vm_compute; reflexivity); eexists; eexists; repeat split; vm_compute; reflexivity. Qed.
 
 Example C11_ex_escapes :
   let l := [Plain "a"; Esc dq; Plain "b"; Esc dq; Plain " "; Esc bs; Plain " "; Esc "n"; Esc "t"; Esc sq; Esc bs; Esc "n"] in
@@ -233,12 +336,24 @@ Print Assumptions C11_escape_roundtrip.
 Print Assumptions C11_exact_render_partial.
 Print Assumptions C11_array_elements_bare.
 Print Assumptions C11_exact_render_arrays_partial.
+Print Assumptions C11_exact_render_arrays.
+Print Assumptions C11_array_element_no_constraint.
 Print Assumptions C11_exact_scan_partial.
+Print Assumptions C11_plain_bodies_instance.
 Print Assumptions C11_exact_canon_partial.
+Print Assumptions C11_full_canon_length_partial.
+Print Assumptions C11_full_canon_length_vec_partial.
+Print Assumptions C11_full_canon_range_partial.
 Print Assumptions C11_loop_exact_partial.
+Print Assumptions C11_other_validators_condition_exact.
+Print Assumptions C11_keyword_in_item.
+Print Assumptions C11_loop_escaped_messages.
 Print Assumptions C11_later_attrs_only_add.
 Print Assumptions C11_unescape_exact_partial.
 Print Assumptions C11_message_escapes_partial.
+Print Assumptions C11_u64_bound_exact.
+Print Assumptions C11_show_N_value.
+Print Assumptions C11_show_N_reads.
 Print Assumptions C11_oracle_exact.
 Print Assumptions C11_none.
 Print Assumptions C11_not_misattached.
